@@ -55,11 +55,14 @@ func findMatches(insts []bytecode.SearchInstruction, all bool, skip int, take in
 			lineNumber = currentState.currentLineNum
 			columnNumber = currentState.currentColumnNum
 			matchNumber += 1
+		} else if currentState.status == SUCCESS && len(currentState.currentMatch) != 0 {
+			// a skipped match is stepped over like a reported one
+			matchNumber += 1
+			fileOffset = currentState.currentFileOffset
+			lineNumber = currentState.currentLineNum
+			columnNumber = currentState.currentColumnNum
 		} else {
 			// fmt.Println("====== FAILED  ======")
-			if currentState.status == SUCCESS && len(currentState.currentMatch) != 0 {
-				matchNumber += 1
-			}
 			skipC := reader.ReadAt(1, fileOffset)
 			if len(skipC) != 1 {
 				panic("WOW THAT IS NOT GOOD :(")
